@@ -30,7 +30,20 @@ impl Read for Scheduled {
         self.step += 1;
         let want = match ev.as_deref() {
             Some("i") => return Err(std::io::Error::new(std::io::ErrorKind::Interrupted, "eintr")),
-            Some("e") => return Err(std::io::Error::new(std::io::ErrorKind::Other, "boom")),
+            // a hard error of some kind (anything but Interrupted must be returned, never
+            // treated as end of file or retried)
+            Some(e) if e.starts_with('e') => {
+                let kind = match e {
+                    "eu" => std::io::ErrorKind::UnexpectedEof,
+                    "ew" => std::io::ErrorKind::WouldBlock,
+                    "et" => std::io::ErrorKind::TimedOut,
+                    "ep" => std::io::ErrorKind::BrokenPipe,
+                    "ed" => std::io::ErrorKind::InvalidData,
+                    "en" => std::io::ErrorKind::NotFound,
+                    _ => std::io::ErrorKind::Other,
+                };
+                return Err(std::io::Error::new(kind, "boom"));
+            }
             Some(n) => n.parse::<usize>().unwrap_or(usize::MAX).max(1),
             None => usize::MAX,
         };
